@@ -18,7 +18,8 @@ LEVEL = "exploration"
 RULE = (
     "one case per (mnemonic, operand shape, size suffix, operand value, letter-case variant) rendered as a one-instruction program; "
     "the enumeration is the full product of ISA mnemonics + live-table mnemonics x 24 shapes x {none,.b,.w,.l} x 9 boundary values x 3 case "
-    "variants, plus 6 alternative spellings (zero-padded hex, decimal, binary) of 3 values for every unsuffixed shape (disjoint shards, so distinct by construction); non-trivial = judged (accepted and compared with the ISA matrix, or a "
+    "variants, plus 6 alternative spellings (zero-padded hex, decimal, binary) of 3 values for every unsuffixed shape, 2 further origins (banks 01 and 82) x 5 operands in and out of the "
+    "program bank, and operands that are symbols named like registers / size letters (disjoint shards, so distinct by construction); non-trivial = judged (accepted and compared with the ISA matrix, or a "
     "supported-set member that must be accepted); thorough adds random operand expressions hashed by program text"
 )
 ASSUMPTIONS = [
@@ -70,6 +71,8 @@ SPELLINGS = [
     lambda v: f"0b{v:024b}",
     lambda v: f"0x{v:08x}",
 ]
+ORIGINS = [0x018000, 0x828123]
+REGISTER_LIKE_NAMES = ["a", "A", "x", "Y", "s", "b", "l"]
 UNJUDGED_PLAIN = set(isa.BRANCHES) | {"brl", "per"}
 
 
@@ -217,6 +220,26 @@ def run_enum(shard: dict, res: Res) -> None:
                     stmt = render(m, shape, suffix, text, "lower")
                     judge(res, supported, m, shape, suffix, v, stmt, f"*=0x008000\n{stmt}\n", key_of(m, shape, suffix, v), True)
                     res.count("paren_lead_cases")
+        # the bytes of a non-relative instruction do not depend on where it is assembled: other banks, operands in the bank of the
+        # program counter and in other banks
+        for origin in ORIGINS:
+            bank = origin & 0xFF0000
+            for shape, tpl, isa_shape in SHAPES:
+                if isa_shape in (None, "imp"):
+                    continue
+                for v in (origin, bank | 0x8123, (bank ^ 0x010000) | 0x8123, 0x8123, bank | 0xFFFF):
+                    stmt = render(m, shape, "", vtext_of(v), "lower")
+                    judge(res, supported, m, shape, "", v, stmt, f"*={origin:#08x}\n{stmt}\n", key_of(m, shape, "", v), True)
+                    res.count("origin_cases")
+        # an operand that is a symbol keeps meaning that symbol whatever its name (register letters, size letters)
+        for name in REGISTER_LIKE_NAMES:
+            for shape, tpl, isa_shape in SHAPES:
+                if isa_shape in (None, "imp"):
+                    continue
+                for v in (0x12, 0x1234):
+                    stmt = render(m, shape, "", name, "lower")
+                    judge(res, supported, m, shape, "", v, stmt, f"*=0x008000\n{name} := {v:#x}\n{stmt}\n", key_of(m, shape, "", v), True)
+                    res.count("register_like_name_cases")
         # spellings of the same value must not change the inferred width
         for shape, tpl, _ in SHAPES:
             if shape == "imp":
